@@ -231,6 +231,7 @@ PROPS["C06"] = dict(
 PROPS["C08"] = dict(
     title="Graceful leave is final; a member's name and address cannot be hijacked",
     pkg="./props/c08",
+    journal=True,
     level="exploration",
     rule=("peer role: one real node holding a subject alive/suspect/dead/left (incarnation 1-3), DeadNodeReclaimTime 0/2s/1h; 1-8 steps of leave messages "
           "(incarnation held-1..held+3), alive claims from the same address, another IP or another port (incarnation held-1..held+2), third-party dead/suspect, "
